@@ -1314,6 +1314,23 @@ def fam_bigtemplate_small_sets(rng, tier="quick"):
                 for m, w in ((tm, []), (dm, ["export", "common"])):
                     o = op_parse(0, msgs=[m], want=w); o["nospec"] = True; ops.append(o)
                 out.append(("bigtemplate-v9-%s-%d" % (kind, k), ops))
+        # IPFIX: one message packed with data sets of 0..3 body bytes for a cached k-field (options) template; today the first such set
+        # ends the message (one clone); a set loop that goes on must not clone the template once per set
+        for kind in ("data", "optdata"):
+            for blen in (0, 1, 3):
+                fields = [{"typ": 1, "len": 4, "ent": None}] * k
+                if kind == "data":
+                    t = {"templates": {"ts": [{"id": 256, "fields": fields}], "pad": ""}}
+                else:
+                    t = {"optTemplates": {"ts": [{"id": 256, "scopeCount": 1, "fields": fields}], "pad": ""}}
+                tm = {"ipfix": {"m": {"exportTime": 1, "seq": 1, "odid": 1, "sets": [t]}}}
+                n = min(ns, (65000 - 16) // (4 + blen))
+                sets = ((256).to_bytes(2, "big") + (4 + blen).to_bytes(2, "big") + bytes([7] * blen)) * n
+                dm = {"raw": {"b": hx(b"\x00\x0a" + (16 + len(sets)).to_bytes(2, "big") + bytes(12) + sets)}}
+                ops = [op_new(0)]
+                for m, w in ((tm, []), (dm, ["export", "common"])):
+                    o = op_parse(0, msgs=[m], want=w); o["nospec"] = True; ops.append(o)
+                out.append(("bigtemplate-ipfix-%s-%d" % (kind, k), ops))
     return out
 
 
